@@ -135,6 +135,47 @@ func main() {
 		for _, r := range rows {
 			fmt.Println(r.i, r.d)
 		}
+	case "survey":
+		// debugging aid: run n indices, aggregate violation signatures over all properties
+		e := engineByName(*engine)
+		cnt := map[string]int{}
+		ex := map[string]string{}
+		halts := map[string]int64{}
+		probes := map[string]int64{}
+		for i := 0; i < *n; i++ {
+			s := core.RunSeed(*seed, *property, e.Name(), uint64(i))
+			tr := e.Generate(*property, *tier, s, uint64(i))
+			res, err := e.Execute(tr)
+			if err != nil {
+				fmt.Fprintln(os.Stderr, "harness error:", err, "idx", i)
+				os.Exit(2)
+			}
+			for _, v := range res.Violations {
+				k := v.Signature()
+				cnt[k]++
+				if ex[k] == "" {
+					ex[k] = fmt.Sprintf("idx=%d step=%d %s", i, v.Step, v.Detail)
+				}
+			}
+			for k, v := range res.Stats.Halts {
+				halts[k] += v
+			}
+			for k, v := range res.Stats.Probes {
+				probes[k] += v
+			}
+		}
+		keys := make([]string, 0, len(cnt))
+		for k := range cnt {
+			keys = append(keys, k)
+		}
+		sort.Strings(keys)
+		for _, k := range keys {
+			fmt.Printf("%4d %s\n       %s\n", cnt[k], k, ex[k])
+		}
+		fmt.Println("halts:", halts)
+		if *digests {
+			fmt.Println("probes:", probes)
+		}
 	case "show":
 		// debugging aid: run one index and print its violations (and optionally the trace)
 		e := engineByName(*engine)
